@@ -3,7 +3,7 @@
    (BucketTop.bucketing_segment_for_key_spec), so the answer is that of PGMIndex::search with
    EpsilonRecursive = 0 (ComposeIdx.search_contract_at); outside, the early exits. *)
 Require Import Base Fp PlaModel PlaSpec GenLeaf IndexModel IndexProofs MappedQueries IdxFed IdxSeg IdxBlock IdxLevel
-  IdxSearch0 IdxChain IdxFuel VariantsModel BucketTop ComposeIdx.
+  IdxSearch0 IdxChain IdxFuel VariantsModel BucketTop ComposeIdx ComposeBuild.
 From Coq Require Import ZifyBool.
 Local Open Scope Z_scope.
 
@@ -190,6 +190,45 @@ Proof.
   exists a. split; [exact Es|]. tauto.
 Qed.
 
+(* ---- with the construction ---- *)
+Lemma bit_width_le32 x : 0 <= x < 2 ^ 32 -> BIT_WIDTH x <= 32.
+Proof.
+  intros H. unfold BIT_WIDTH, clzll. destruct (x =? 0) eqn:E; [lia|].
+  assert (Z.log2 x < 32) by (apply Z.log2_lt_pow2; lia). lia.
+Qed.
+
+Lemma inner_cfg_small bc : c_par (b_cfg bc) <= 20 -> c_eps (b_cfg bc) <= 2 ^ 31 -> cfg_small (inner bc).
+Proof. intros H1 H2. constructor; cbn; lia. Qed.
+
+(* BucketingPGMIndex over at most 2^30 keys: the constructor succeeds and every search satisfies the
+   contract.  Conditions on the top level: TopLevelBitSize = 0 (dynamic) or >= 32, and for a
+   power-of-two TopLevelSize the shift count is in range (2 <= bit_width(TopLevelSize) <= bits(K)+1). *)
+Theorem bucketing_contract_total bc data :
+  bucket_ok bc -> c_par (b_cfg bc) <= 20 -> c_eps (b_cfg bc) <= 2 ^ 31 ->
+  (pow_two (b_tls bc) = true -> 0 <= top_shift bc < kbits (c_kt (b_cfg bc))) ->
+  (b_tlbs bc = 0 \/ 32 <= b_tlbs bc) ->
+  float_ok_all (inner bc) -> data_ok (inner bc) data -> zlen data <= 2 ^ 30 ->
+  exists b, bucketing_build bc data = Ok b /\
+    forall q, exists a, bucketing_search bc b q = Ok a /\
+      0 <= a_lo a <= lb data q /\ lb data q <= a_hi a <= zlen data /\
+      (In q data -> lb data q < a_hi a) /\ a_hi a - a_lo a <= 2 * c_eps (b_cfg bc) + 2.
+Proof.
+  intros Hbo Hp He Hsh Hw Hf Hd Hn. pose proof Hd as [Hne _ _ _ _].
+  destruct (build_total (inner bc) data (inner_idx_ok bc Hbo) (inner_cfg_small bc Hp He) Hd Hn) as (ix & E & Hs32).
+  pose proof (zlen_ge0 (ix_segments ix)) as Hz0.
+  destruct (build_top_level_ok bc (ix_segments ix) (hd 0 data) (last_z data) (bo_unsigned bc Hbo)
+              ltac:(pose proof (bo_bits bc Hbo); lia) Hsh
+              ltac:(destruct Hw as [->|Hw]; [left; reflexivity|right; pose proof (bit_width_le32 (zlen (ix_segments ix)) ltac:(lia)); lia]))
+    as (top & step & Et).
+  assert (Eb : bucketing_build bc data = Ok (mkBucketing (zlen data) (hd 0 data) (last_z data) (ix_segments ix) top step)).
+  { unfold bucketing_build.
+    assert (Hn0 : zlen data <> 0) by (destruct data; [contradiction|]; rewrite zlen_cons; pose proof (zlen_ge0 data); lia).
+    replace (zlen data =? 0) with false by lia. fold (inner bc). rewrite E. cbn [bind]. rewrite Et. reflexivity. }
+  eexists. split; [exact Eb|]. intros q.
+  exact (bucketing_search_contract bc data _ q Hbo Hf Hd Eb Hs32).
+Qed.
+
+Print Assumptions bucketing_contract_total.
 Print Assumptions bucketing_search_inside.
 Print Assumptions bucketing_search_contract_at.
 Print Assumptions bucketing_search_contract.
